@@ -8,10 +8,12 @@ operation sequence (any number of buffers, any sizes, any interleaving of constr
 resize / reserve / shrink / clear / zeroize / clone / drop / into_vec / into_boxed_slice) and over every pair of growth laws that
 return at least the requested capacity (`Params.Sound`); the pinned tree's laws are one instance (`std_sound`).
 
-Part B (Model/SecretFmt.lean): `Debug` output as a function of the public part.  The full-strength statement
-`FmtNonInterfering` is FALSE on the current tree (D9 `Options`, D16 BLS keys, D17 `Argon2` / `BlsKeyGen`, and two further types
-found by this check: `PostgresStoreOptions`, `JwkParts`); it is kept visible, refuted with witnesses, and the part that holds is
-`fmt_noninterfering_partial` together with the exact classification `leaky_types_exactly`.
+Part B (Model/SecretFmt.lean): `Debug` output as a function of the public part, parametrised by `FmtCfg` — six flags read from
+the source on every run (Generated/Flags.lean) saying which `Debug` impls are the hand-written redacting ones.  Every theorem
+below is true WHATEVER the flags are.  The full-strength statement `FmtNonInterfering cfg` was FALSE on the pinned tree (D9
+`Options`, D16 BLS keys, D17 `Argon2` / `BlsKeyGen`, and two further types found by this check: `PostgresStoreOptions`,
+`JwkParts`): `fmt_noninterfering_refuted_pinned` with witnesses; it is the full theorem on the repaired tree
+(`fmt_noninterfering_fixed`), and for the tree under check it holds iff all six flags are on (`fmt_noninterfering_current`).
 -/
 import AskarModel.Lemmas.SecretBuf
 import AskarModel.Lemmas.SecretFmt
@@ -121,68 +123,100 @@ example : ¬ clean ((bufferResize Params.std ⟨1, [1, 2, 3, 4], []⟩ 1 Heap.in
 /-! ## Part B -/
 open Askar.SecretFmt
 
-/-- Full strength (what the property demands): the `Debug` text of every secret-bearing type is a function of the public part. -/
-def FmtNonInterfering : Prop :=
-  ∀ (t : Ty) (pub : String) (s₁ s₂ : List UInt8), render (debugFmt t) ⟨pub, s₁⟩ = render (debugFmt t) ⟨pub, s₂⟩
+/-- Full strength (what the property demands), for the tree described by `cfg`: the `Debug` text of every secret-bearing type
+    is a function of the public part. -/
+def FmtNonInterfering (cfg : FmtCfg) : Prop :=
+  ∀ (t : Ty) (pub : String) (s₁ s₂ : List UInt8), render (debugFmt cfg t) ⟨pub, s₁⟩ = render (debugFmt cfg t) ⟨pub, s₂⟩
 
-/-- The part that holds: every type classified as not leaky ignores the secret component. -/
-theorem fmt_noninterfering_partial (t : Ty) (ht : leaky t = false) (pub : String) (s₁ s₂ : List UInt8) :
-    render (debugFmt t) ⟨pub, s₁⟩ = render (debugFmt t) ⟨pub, s₂⟩ :=
-  SecretFmt.Lemmas.fmt_noninterfering_partial t ht pub s₁ s₂
+/-- Whatever the tree: every type classified as not leaky ignores the secret component. -/
+theorem fmt_noninterfering_partial (cfg : FmtCfg) (t : Ty) (ht : leaky cfg t = false) (pub : String) (s₁ s₂ : List UInt8) :
+    render (debugFmt cfg t) ⟨pub, s₁⟩ = render (debugFmt cfg t) ⟨pub, s₂⟩ :=
+  SecretFmt.Lemmas.fmt_noninterfering_partial cfg t ht pub s₁ s₂
 
-/-- The classification, exactly: the leaky types are `Options` (D9), `PostgresStoreOptions`, `Argon2` and `BlsKeyGen` (D17),
-    `JwkParts`, and the BLS key pairs in all three wrappings (D16) — and nothing else. -/
-theorem leaky_types_exactly (t : Ty) :
-    leaky t = true ↔
-      (∃ q, t = .options q) ∨ (∃ q, t = .pgOptions q) ∨ t = .argon2 ∨ t = .blsKeyGen ∨ (∃ a, t = .jwkParts a) ∨
-      (∃ a, a.isBls = true ∧ (t = .key a ∨ t = .anyKey a ∨ t = .localKey a)) :=
-  SecretFmt.Lemmas.leaky_iff t
+/-- The classification, exactly, in terms of the flags read from the source: a type is leaky iff it is `Options` (D9),
+    `PostgresStoreOptions`, `Argon2` / `BlsKeyGen` (D17), `JwkParts`, or a BLS key pair in one of its three wrappings (D16), AND the
+    `Debug` of that type is still the derived one — and nothing else is leaky. -/
+theorem leaky_types_exactly (cfg : FmtCfg) (t : Ty) :
+    leaky cfg t = true ↔
+      (cfg.optionsRedacts = false ∧ ∃ q, t = .options q) ∨ (cfg.pgOptionsRedacts = false ∧ ∃ q, t = .pgOptions q) ∨
+      (cfg.argon2Redacts = false ∧ t = .argon2) ∨ (cfg.blsKeyGenRedacts = false ∧ t = .blsKeyGen) ∨
+      (cfg.jwkPartsRedacts = false ∧ ∃ a, t = .jwkParts a) ∨
+      (cfg.blsSecretRedacts = false ∧ ∃ a, a.isBls = true ∧ (t = .key a ∨ t = .anyKey a ∨ t = .localKey a)) :=
+  SecretFmt.Lemmas.leaky_iff cfg t
 
 /-- Every leaky type really prints the secret: different secrets, different text. -/
-theorem leaky_prints_secret (t : Ty) (ht : leaky t = true) (pub : String) (s₁ s₂ : List UInt8) (hs : s₁ ≠ s₂) :
-    render (debugFmt t) ⟨pub, s₁⟩ ≠ render (debugFmt t) ⟨pub, s₂⟩ :=
+theorem leaky_prints_secret (cfg : FmtCfg) (t : Ty) (ht : leaky cfg t = true) (pub : String) (s₁ s₂ : List UInt8) (hs : s₁ ≠ s₂) :
+    render (debugFmt cfg t) ⟨pub, s₁⟩ ≠ render (debugFmt cfg t) ⟨pub, s₂⟩ :=
   SecretFmt.Lemmas.render_depends_on_secret _ ht pub s₁ s₂ hs
 
-/-- The full statement holds exactly when no type is classified as leaky: the bridge that turns the classification table into
-    the property (and, once the redacting `Debug` impls are in, turns `leaky t = false` for all `t` into `FmtNonInterfering`). -/
-theorem fmt_noninterfering_iff : FmtNonInterfering ↔ ∀ t, leaky t = false := by
+/-- The full statement holds exactly when no type is classified as leaky … -/
+theorem fmt_noninterfering_iff (cfg : FmtCfg) : FmtNonInterfering cfg ↔ ∀ t, leaky cfg t = false := by
   constructor
   · intro h t
-    cases ht : leaky t with
+    cases ht : leaky cfg t with
     | false => rfl
-    | true => exact absurd (h t "" [1] [2]) (leaky_prints_secret t ht "" [1] [2] (by decide))
+    | true => exact absurd (h t "" [1] [2]) (leaky_prints_secret cfg t ht "" [1] [2] (by decide))
   · intro h t pub s₁ s₂
-    exact fmt_noninterfering_partial t (h t) pub s₁ s₂
+    exact fmt_noninterfering_partial cfg t (h t) pub s₁ s₂
 
-/-- The full statement is refuted on the model of the current code (witness: D9, `Options` with two different passwords). -/
-theorem fmt_noninterfering_refuted : ¬ FmtNonInterfering := by
+/-- … that is, exactly when all six `Debug` implementations are the redacting ones. -/
+theorem fmt_noninterfering_iff_flags (cfg : FmtCfg) : FmtNonInterfering cfg ↔ cfg.allRedact = true :=
+  (fmt_noninterfering_iff cfg).trans (SecretFmt.Lemmas.no_leaky_iff cfg)
+
+/-- THE FULL THEOREM on the repaired tree. -/
+theorem fmt_noninterfering_fixed : FmtNonInterfering FmtCfg.fixed :=
+  (fmt_noninterfering_iff_flags FmtCfg.fixed).mpr rfl
+
+/-- The tree the check runs against (flags regenerated from /repo on every run) satisfies the full statement iff all six
+    source-derived flags are on; true whatever the flags are, so a regression of one `Debug` impl does not break the proof — it
+    flips the model's prediction and is caught by the `c20:fmt` / `c20:log` oracle. -/
+theorem fmt_noninterfering_current :
+    FmtNonInterfering FmtCfg.current ↔
+      (Askar.Generated.Flags.optionsDebugRedacts && Askar.Generated.Flags.blsSecretDebugRedacts &&
+       Askar.Generated.Flags.blsKeyGenDebugRedacts && Askar.Generated.Flags.argon2DebugRedacts &&
+       Askar.Generated.Flags.pgOptionsDebugRedacts && Askar.Generated.Flags.jwkPartsDebugRedacts) = true :=
+  fmt_noninterfering_iff_flags FmtCfg.current
+
+/-- The full statement is refuted on the model of the PINNED tree. -/
+theorem fmt_noninterfering_refuted_pinned : ¬ FmtNonInterfering FmtCfg.pinned := by
   intro h
-  exact leaky_prints_secret (.options false) (by decide) "" [1] [2] (by decide) (h _ _ _ _)
+  have := (fmt_noninterfering_iff_flags FmtCfg.pinned).mp h
+  exact absurd this (by decide)
 
 theorem options_debug_prints_password_witness :          -- D9
-    ∃ pub s₁ s₂, render (debugFmt (.options false)) ⟨pub, s₁⟩ ≠ render (debugFmt (.options false)) ⟨pub, s₂⟩ :=
-  ⟨"", [1], [2], leaky_prints_secret _ (by decide) _ _ _ (by decide)⟩
+    ∃ pub s₁ s₂, render (debugFmt FmtCfg.pinned (.options false)) ⟨pub, s₁⟩ ≠ render (debugFmt FmtCfg.pinned (.options false)) ⟨pub, s₂⟩ :=
+  ⟨"", [1], [2], leaky_prints_secret _ _ (by decide) _ _ _ (by decide)⟩
 
 theorem bls_debug_prints_scalar_witness :                -- D16
-    ∃ pub s₁ s₂, render (debugFmt (.localKey .bls12381g1)) ⟨pub, s₁⟩ ≠ render (debugFmt (.localKey .bls12381g1)) ⟨pub, s₂⟩ :=
-  ⟨"", [1], [2], leaky_prints_secret _ (by decide) _ _ _ (by decide)⟩
+    ∃ pub s₁ s₂, render (debugFmt FmtCfg.pinned (.localKey .bls12381g1)) ⟨pub, s₁⟩ ≠
+      render (debugFmt FmtCfg.pinned (.localKey .bls12381g1)) ⟨pub, s₂⟩ :=
+  ⟨"", [1], [2], leaky_prints_secret _ _ (by decide) _ _ _ (by decide)⟩
 
 theorem argon2_debug_prints_password_witness :           -- D17
-    ∃ pub s₁ s₂, render (debugFmt .argon2) ⟨pub, s₁⟩ ≠ render (debugFmt .argon2) ⟨pub, s₂⟩ :=
-  ⟨"", [1], [2], leaky_prints_secret _ (by decide) _ _ _ (by decide)⟩
+    ∃ pub s₁ s₂, render (debugFmt FmtCfg.pinned .argon2) ⟨pub, s₁⟩ ≠ render (debugFmt FmtCfg.pinned .argon2) ⟨pub, s₂⟩ :=
+  ⟨"", [1], [2], leaky_prints_secret _ _ (by decide) _ _ _ (by decide)⟩
 
-/-- Log records: a capture leaks iff the URI carried credentials and the `any.rs` "… store with options: {:?}" site fired
-    (D9); every other call site passes labels, handles and algorithm names only. -/
-theorem log_leaks_exactly (s : Scenario) :
-    s.leaks = true ↔ s.uriHasCredentials = true ∧ LogSite.anyOptions ∈ s.sites :=
-  SecretFmt.Lemmas.scenario_leaks_iff s
+/-- Log records: a capture leaks iff `Options` still has the derived `Debug` (D9), the URI carried credentials and the `any.rs`
+    "… store with options: {:?}" site fired; every other call site passes labels, handles and algorithm names only. -/
+theorem log_leaks_exactly (cfg : FmtCfg) (s : Scenario) :
+    s.leaks cfg = true ↔ cfg.optionsRedacts = false ∧ s.uriHasCredentials = true ∧ LogSite.anyOptions ∈ s.sites :=
+  SecretFmt.Lemmas.scenario_leaks_iff cfg s
+
+/-- on the repaired tree no log capture leaks -/
+theorem log_never_leaks_fixed (s : Scenario) : s.leaks FmtCfg.fixed = false := by
+  cases h : s.leaks FmtCfg.fixed with
+  | false => rfl
+  | true => exact absurd ((log_leaks_exactly FmtCfg.fixed s).mp h).1 (by decide)
 
 /-- Dropping a heap-allocated key object leaves only zero bytes in its block. -/
 theorem key_drop_wipes (k : KeyBlock) : ∀ c ∈ (dropKey k).cells, c = 0 :=
   SecretFmt.Lemmas.key_drop_wipes k
 
-/-- non-vacuity: most types are classified as not leaky (so `fmt_noninterfering_partial` says something) -/
-example : leaky .secretBytes = false ∧ leaky .passKey = false ∧ leaky (.localKey .ed25519) = false ∧ leaky .keyEntry = false ∧
-    leaky (.error .wrongPassKey) = false := by decide
+/-- non-vacuity: whatever the flags, most types are not leaky; on the pinned tree the six are, on the fixed tree none is -/
+example (cfg : FmtCfg) : leaky cfg .secretBytes = false ∧ leaky cfg .passKey = false ∧ leaky cfg .keyEntry = false ∧
+    leaky cfg (.error .wrongPassKey) = false := ⟨rfl, rfl, rfl, rfl⟩
+example : leaky FmtCfg.pinned (.options true) = true ∧ leaky FmtCfg.fixed (.options true) = false ∧
+    leaky FmtCfg.pinned (.localKey .bls12381g2) = true ∧ leaky FmtCfg.fixed (.localKey .bls12381g2) = false ∧
+    leaky FmtCfg.pinned (.localKey .ed25519) = false := by decide
 
 end Askar.C20
